@@ -212,3 +212,39 @@ PROPS["C06"] = {
                    "and the end-to-end composition lemma (assemble then load returns the same module).",
     "assumptions": [],
 }
+
+PROPS["C15"] = {
+    "title": "Module traversals visit exactly the assembled instruction sequence",
+    "units": {"quick": ["traversal_sweep", "assemble"], "thorough": ["traversal_sweep", "assemble"]},
+    "only_items": {"assemble": [r"dr::(Block|Function|Instruction|ModuleHeader)::assemble_into"]},
+    "engines": ["replay-bounded", "verus"],
+    "level": "model_checking",
+    "technique": "bounded exhaustive enumeration of module shapes on the real crate for the iterator-chain traversals (labelled bounded); Verus proofs of Block/Function/Instruction assemble_into (loop invariants)",
+    "design_ref": "DESIGN.md §4 C15, §9",
+    "explanation": "BOUNDED: every module shape with sections of <= 2 instructions, <= 2 functions x <= 2 blocks x <= 2 instructions and every present/absent "
+                   "combination of header, memory model, def, end, label (about 1.5 million modules) is built on the real crate and all six traversals plus "
+                   "Module::assemble are compared with the layout order. Unbounded (Verus): Block, Function and Instruction assemble_into equal the concatenation "
+                   "of their parts. The iterator chains themselves are not proved for larger sections.",
+    "assumptions": [],
+}
+
+PROPS["C01"] = {
+    "title": "Load-then-assemble reproduces every instruction of the input binary",
+    "units": {"quick": ["loader", "parser_protocol", "parser_core", "assemble", "decoder", "traversal_sweep"],
+              "thorough": ["loader", "parser_protocol", "parser_core", "assemble", "decoder", "traversal_sweep", "table_core"]},
+    "only_items": {"loader": [r"Loader::", r"step_adds", r"step_appends", r"ms_", r"step_refines"],
+                   "parser_protocol": [r"Parser::(parse|new)$", r"Action::consume"],
+                   "parser_core": [r"parse_inst", r"parse_header", r"parse_operands", r"parse_literal", r"create_"],
+                   "assemble": [r"dr::(Block|Function|Instruction|ModuleHeader|Operand)::assemble_into", r"operand_facts"],
+                   "decoder": [r"Decoder::(string|word|words|bit64)$"]},
+    "engines": ["verus", "replay-bounded"],
+    "level": "proof",
+    "technique": "composition of discharged contracts: parser delivers every instruction once in order (C14) and consumes exactly its extent (C03); loader step adds exactly that instruction to exactly one place, appending (multiset + prefix lemmas over the proved automaton); assembly of instruction/block/function is the concatenation of encodings (C02/C15); traversal order by bounded sweep",
+    "design_ref": "DESIGN.md §4 C01, §9",
+    "explanation": "Proved: (i) every accepted loader step adds exactly the consumed instruction to the loader's holdings (multiset lemma per instruction kind over the automaton "
+                   "the real loader is proved equal to) and only ever appends, so nothing is dropped, duplicated or invented and order inside every section is kept; "
+                   "(ii) parse delivers each parsed instruction exactly once, in stream order, and parse_inst consumes exactly the declared extent; (iii) header: bound and version bytes are carried; "
+                   "(iv) instruction/block/function assembly is the concatenation of the operand encodings. BOUNDED: module-level assembly order (traversal sweep). "
+                   "NOT proved: the value-level inverse (re-encoding yields the same words) and the end-to-end composition as one lemma.",
+    "assumptions": [],
+}
